@@ -291,3 +291,17 @@ def forwarding_closure(fx, makers, roots_fn, body_fn):
                 out[g["def"]] = (r.site - 1, tuple(e for e in r.proj if not str(e).startswith("<part:")))
                 changed = True
     return out
+
+
+def capture_operand(fx, f, idx):
+    """(parent fn record, operand in the parent's body) of capture `idx` of closure / coroutine f, or None"""
+    from mir import agg_sites
+    parent = fx.fn(f.get("parent") or "")
+    if parent is None:
+        return None
+    pb = Body(parent)
+    for ak in ("closure", "coroutine"):
+        for _bi, _si, st in agg_sites(pb, ak=ak):
+            if st["r"].get("def") == f["def"] and idx < len(st["r"]["ops"]):
+                return parent, st["r"]["ops"][idx]
+    return None
